@@ -180,6 +180,10 @@ class CallMixin(object):
                 raise EngineError('loop exit escaped function')
         result = None
         cur = State(guard=z3.BoolVal(False))
+        if any(isinstance(x.value, V) for x in rets) and any(isinstance(x.value, (GList, PyTuple)) for x in rets):
+            for x in rets:
+                if isinstance(x.value, (GList, PyTuple)):
+                    x.value = self.as_v(x.state, x.value)
         for x in rets:
             if cur.dead():
                 cur = x.state
@@ -694,9 +698,27 @@ class CallMixin(object):
                 else:
                     out.append(z3.StringVal(p))
             return V(mkS(self.concat(out)), S)
-        if name in ('split', 'rsplit', 'splitlines', 'encode', 'decode'):
+        if name in ('split', 'rsplit', 'splitlines'):
+            # trusted: a fresh list of strings that is a function of (text, separator, maxsplit)
+            sep = Val.s(args[0].t) if args and isinstance(args[0], V) and not self.const_is_none(args[0]) else z3.StringVal('\x00<ws>')
+            mx = Val.i(args[1].t) if len(args) > 1 else z3.IntVal(-1)
+            ulen = self.get_uf('str_%s_len' % name, StrS, StrS, IntS, IntS)
+            uarr = self.get_uf('str_%s_items' % name, StrS, StrS, IntS, z3.ArraySort(IntS, Val))
+            self.trust('str.%s: result is an uninterpreted function of (text, separator, maxsplit) with length bounds' % name)
+            nr = self.new_ref(st, list)
+            n = ulen(x, sep, mx)
+            self.assume(st, n >= (1 if (args and name != 'splitlines') else 0))
+            if len(args) > 1:
+                self.assume(st, z3.Implies(mx >= 0, n <= mx + 1))
+            st.heap['$LEN'] = z3.Store(self.harr(st, '$LEN'), nr, n)
+            st.heap['$ELEM'] = z3.Store(self.harr(st, '$ELEM'), nr, uarr(x, sep, mx))
+            return V(mkR(nr), parse_spec('list[str]'))
+        if name in ('encode', 'decode'):
             raise EngineError('str.%s needs contract-level treatment' % name)
         raise EngineError('str method %s' % name)
+
+    def const_is_none(self, v):
+        return isinstance(v, V) and simp(v.t).eq(NONE)
 
     def str_join(self, st, sep, seq, line):
         if isinstance(seq, PyTuple) or (isinstance(seq, GList) and all(z3.is_true(e.guard) for e in seq.entries)):
@@ -712,6 +734,11 @@ class CallMixin(object):
             self.trust('str.join over a symbolic list: uninterpreted function of (sep, elements, length)')
             r = Val.r(seq.t)
             return V(mkS(uf(Val.s(sep.t), z3.Select(self.harr(st, '$ELEM'), r), self.list_len(st, r))), parse_spec('str'))
+        if isinstance(seq, PyObj) and isinstance(seq.o, tuple) and seq.o and seq.o[0] == 'dictview':
+            uf = self.get_uf('str_join_dict', StrS, DMapInner, StrS)
+            self.trust('str.join over a dict view: uninterpreted function of (sep, dict contents)')
+            dv = seq.o[2]
+            return V(mkS(uf(Val.s(sep.t), z3.Select(self.harr(st, '$DMAP'), Val.r(dv.t)))), parse_spec('str'))
         raise EngineError('join of %r' % (seq,))
 
     # ------------------------------------------------------------------ with
